@@ -619,3 +619,145 @@ def _blocks(node):
             if isinstance(b, list) and b and isinstance(b[0], ast.stmt):
                 out.append(b)
     return out
+
+
+def flag_while_to_for(fn: ast.FunctionDef):
+    """`it = iter(X); flag = False; while not flag and next(it, None) is not None: BODY; flag = bool(T)`  ->
+    `for _ in X: BODY; if T: break` — the same iterations, left at the same point (the flag is only written by the last statement of the
+    body and read by the loop test). Returns a rewritten deep copy (unchanged if the idiom is absent)."""
+    fn = copy.deepcopy(fn)
+    for blk in _blocks(fn):
+        for k, st in enumerate(blk):
+            if not (isinstance(st, ast.While) and isinstance(st.test, ast.BoolOp) and isinstance(st.test.op, ast.And) and len(st.test.values) == 2 and not st.orelse and st.body):
+                continue
+            flag = itn = None
+            for v in st.test.values:
+                if isinstance(v, ast.UnaryOp) and isinstance(v.op, ast.Not) and isinstance(v.operand, ast.Name):
+                    flag = v.operand.id
+                elif isinstance(v, ast.Compare) and len(v.ops) == 1 and isinstance(v.ops[0], ast.IsNot) and isinstance(v.comparators[0], ast.Constant) and v.comparators[0].value is None \
+                        and isinstance(v.left, ast.Call) and isinstance(v.left.func, ast.Name) and v.left.func.id == "next" and len(v.left.args) == 2 \
+                        and isinstance(v.left.args[0], ast.Name) and isinstance(v.left.args[1], ast.Constant) and v.left.args[1].value is None:
+                    itn = v.left.args[0].id
+            if flag is None or itn is None:
+                continue
+            last = st.body[-1]
+            if not (isinstance(last, ast.Assign) and len(last.targets) == 1 and isinstance(last.targets[0], ast.Name) and last.targets[0].id == flag):
+                continue
+            stores = [n for n in ast.walk(st) if isinstance(n, ast.Name) and n.id in (flag, itn) and isinstance(n.ctx, ast.Store)]
+            uses_it = [n for b in st.body for n in ast.walk(b) if isinstance(n, ast.Name) and n.id == itn]
+            if len(stores) != 1 or uses_it:
+                continue
+            init_f = [s2 for s2 in blk[:k] if isinstance(s2, ast.Assign) and len(s2.targets) == 1 and isinstance(s2.targets[0], ast.Name) and s2.targets[0].id == flag]
+            init_i = [s2 for s2 in blk[:k] if isinstance(s2, ast.Assign) and len(s2.targets) == 1 and isinstance(s2.targets[0], ast.Name) and s2.targets[0].id == itn]
+            if len(init_f) != 1 or len(init_i) != 1 or not (isinstance(init_f[0].value, ast.Constant) and init_f[0].value.value is False):
+                continue
+            src = init_i[0].value
+            if not (isinstance(src, ast.Call) and isinstance(src.func, ast.Name) and src.func.id == "iter" and len(src.args) == 1):
+                continue
+            if any(isinstance(n, ast.Name) and n.id in (flag, itn) for s2 in blk[k + 1:] for n in ast.walk(s2)):
+                continue  # the flag / the iterator is read after the loop: not this idiom
+            t = last.value
+            if isinstance(t, ast.Call) and isinstance(t.func, ast.Name) and t.func.id == "bool" and len(t.args) == 1:
+                t = t.args[0]
+            body = st.body[:-1] + [ast.If(test=t, body=[ast.Break()], orelse=[])]
+            new = ast.For(target=ast.Name(id="_", ctx=ast.Store()), iter=src.args[0], body=body, orelse=[], type_comment=None)
+            ast.copy_location(new, st)
+            blk[k] = new
+            blk[:] = [s2 for s2 in blk if s2 is not init_f[0] and s2 is not init_i[0]]
+            return ast.fix_missing_locations(fn)
+    return fn
+
+
+def inline_local_objects(fi, index, fn: ast.FunctionDef | None = None, depth: int = 3):
+    """`row = _Helper(a, b); ...; row.step(j); ...; use(row.field)` with `_Helper` a small class of the same module (fields set in
+    `__init__`, simple methods) is read as the code it stands for: the fields become locals `row__field`, the constructor and the
+    method calls are expanded in place. Returns a rewritten deep copy of `fn` (default: fi.node)."""
+    from .index import ClassInfo
+
+    fn = copy.deepcopy(fn if fn is not None else fi.node)
+    counter = [1000]
+
+    class _H:  # what _expand needs of a helper
+        is_static = False
+
+        def __init__(self, node):
+            self.node = node
+
+    objs = {}
+    for a in ast.walk(fn):
+        if isinstance(a, ast.Assign) and len(a.targets) == 1 and isinstance(a.targets[0], ast.Name) and isinstance(a.value, ast.Call) and isinstance(a.value.func, ast.Name):
+            c = index.resolve_name(fi.module, a.value.func.id)
+            if isinstance(c, ClassInfo) and c.module is fi.module and "__init__" in c.methods and not [b for b in c.bases if not (isinstance(b, str) and b.endswith("object"))] \
+                    and all(_simple_helper(m.node) for m in c.methods.values()):
+                v = a.targets[0].id
+                if sum(1 for n in ast.walk(fn) if isinstance(n, ast.Name) and n.id == v and isinstance(n.ctx, ast.Store)) == 1:
+                    objs[v] = c
+    if not objs:
+        return fn
+
+    def localise(stmts, v, fields, expanded=True):
+        """`expanded`: the statements come out of a method of the helper class (their `self` is the object)."""
+        recv = ("self", v) if expanded else (v,)
+
+        class T(ast.NodeTransformer):
+            def visit_Attribute(self, n):
+                self.generic_visit(n)
+                if isinstance(n.value, ast.Name) and n.value.id in recv and n.attr in fields:
+                    return ast.copy_location(ast.Name(id=f"{v}__{n.attr}", ctx=n.ctx), n)
+                return n
+
+            def visit_Name(self, n):
+                return ast.copy_location(ast.Name(id=v, ctx=n.ctx), n) if (expanded and n.id == "self") else n
+
+        return [T().visit(s) for s in stmts]
+
+    for v, c in objs.items():
+        fields = {t.attr for s in ast.walk(c.methods["__init__"].node) if isinstance(s, (ast.Assign, ast.AnnAssign, ast.AugAssign))
+                  for t in (s.targets if isinstance(s, ast.Assign) else [s.target]) for t in [t] if isinstance(t, ast.Attribute) and isinstance(t.value, ast.Name) and t.value.id == "self"}
+        for _ in range(depth):
+            changed = [False]
+
+            def rewrite(stmts):
+                out = []
+                for st in stmts:
+                    for fld in ("body", "orelse", "finalbody"):
+                        blk = getattr(st, fld, None)
+                        if isinstance(blk, list) and blk and isinstance(blk[0], ast.stmt):
+                            setattr(st, fld, rewrite(blk))
+                    if isinstance(st, ast.Assign) and len(st.targets) == 1 and isinstance(st.targets[0], ast.Name) and st.targets[0].id == v and isinstance(st.value, ast.Call):
+                        ex = _expand(st.value, _H(c.methods["__init__"].node), counter)
+                        if ex is not None:
+                            out.extend(localise(ex[0], v, fields))
+                            changed[0] = True
+                            continue
+                    calls = [x for x in ast.walk(st) if isinstance(x, ast.Call) and isinstance(x.func, ast.Attribute) and isinstance(x.func.value, ast.Name) and x.func.value.id == v
+                             and x.func.attr in c.methods] if isinstance(st, (ast.Assign, ast.AugAssign, ast.Expr, ast.Return, ast.If)) else []
+                    if isinstance(st, ast.If):
+                        calls = [x for x in calls if any(x is y for y in ast.walk(st.test))]
+                    done = False
+                    for x in calls:
+                        ex = _expand(x, _H(c.methods[x.func.attr].node), counter)
+                        if ex is None:
+                            continue
+                        pro, res = ex
+                        out.extend(localise(pro, v, fields))
+                        res = localise([ast.Expr(value=res)], v, fields)[0].value if res is not None else ast.Constant(value=None)
+
+                        class Sub(ast.NodeTransformer):
+                            def visit_Call(self, node):
+                                return res if node is x else self.generic_visit(node)
+
+                        new_st = Sub().visit(st)
+                        if not (isinstance(new_st, ast.Expr) and isinstance(new_st.value, ast.Constant)):
+                            out.append(new_st)
+                        changed[0] = done = True
+                        break
+                    if not done:
+                        out.append(st)
+                return out
+
+            fn.body = rewrite(fn.body)
+            if not changed[0]:
+                break
+        fn.body = localise(fn.body, v, fields, expanded=False)
+    return ast.fix_missing_locations(fn)
